@@ -227,7 +227,15 @@ where
     let mut plus_section = |n: usize, offset: &mut usize| {
         get_section(n, &mut plus_line_offset, offset, &alignment.y, plus_line)
     };
-    let distance_contribution = |section: &str| UnicodeWidthStr::width(section.trim());
+    // (a changed section that is not blank counts, also when it has no width: a lone combining
+    // mark or zero-width joiner is a difference, not white space)
+    let distance_contribution = |section: &str| {
+        let section = section.trim();
+        std::cmp::max(
+            UnicodeWidthStr::width(section),
+            usize::from(!section.is_empty()),
+        )
+    };
 
     let (mut minus_op_prev, mut plus_op_prev) = (noop_deletion, noop_insertion);
     for (op, n) in alignment.coalesced_operations() {
